@@ -107,18 +107,24 @@ def _tables(rng, n, kmax, ntarget=None):
     return idx, ker, ln
 
 
+def _vals(rng, shape, lo=-10.0, hi=10.0):
+    """values of ONE magnitude per array (all of order 1, or all scaled by 2**20 / 2**-20): with kernel weights that cancel exactly
+    (+1, -1 onto the same target) a single 1e8 entry next to entries of order 1 only tests float round-off against the tolerance"""
+    return gens.reals(rng, shape, lo, hi, special=False) * rng.choice([1.0, 1.0, 2.0 ** 20, 2.0 ** -20])
+
+
 def _g_nb(rng, tier):
     for _ in range(gens.budget(tier, 200, 3000)):
         n = rng.randint(1, 6)
         idx, ker, ln = _tables(rng, n, 5)
-        yield {"image_1d_array": gens.reals(rng, (n,)), "image_frame_1d_indexes": idx, "image_frame_1d_kernels": ker, "image_frame_1d_lengths": ln}
+        yield {"image_1d_array": _vals(rng, (n,)), "image_frame_1d_indexes": idx, "image_frame_1d_kernels": ker, "image_frame_1d_lengths": ln}
 
 
 def _g_mat(rng, tier):
     for _ in range(gens.budget(tier, 200, 3000)):
         n, p = rng.randint(1, 5), rng.randint(1, 4)
         idx, ker, ln = _tables(rng, n, 4)
-        m = gens.reals(rng, (n, p), -3, 3)
+        m = _vals(rng, (n, p), -3, 3)
         if rng.random() < 0.3:
             m = np.abs(m)
         yield {"mapping_matrix": m, "image_frame_1d_indexes": idx, "image_frame_1d_kernels": ker, "image_frame_1d_lengths": ln}
@@ -129,8 +135,8 @@ def _g_full(rng, tier):
         n, nb = rng.randint(1, 5), rng.randint(0, 5)
         idx, ker, ln = _tables(rng, n, 5)
         bidx, bker, bln = _tables(rng, nb, 5, ntarget=n)
-        yield {"image_1d_array": gens.reals(rng, (n,)), "image_frame_1d_indexes": idx, "image_frame_1d_kernels": ker,
-               "image_frame_1d_lengths": ln, "blurring_1d_array": gens.reals(rng, (nb,)), "blurring_frame_1d_indexes": bidx,
+        yield {"image_1d_array": _vals(rng, (n,)), "image_frame_1d_indexes": idx, "image_frame_1d_kernels": ker,
+               "image_frame_1d_lengths": ln, "blurring_1d_array": _vals(rng, (nb,)), "blurring_frame_1d_indexes": bidx,
                "blurring_frame_1d_kernels": bker, "blurring_frame_1d_lengths": bln}
 
 
